@@ -48,6 +48,10 @@ P = {
          "Internal tower types driven through an add-only hook module: mul, sparse mul (within precondition), squared, inverse, Frobenius, pow, final_exponentiation and final_exp on boundary / sparse / subfield / unitary / cyclotomic / generic elements against flat polynomial arithmetic in F_q[w]/(w^12+2) with Frobenius and final exponentiation by generic powering; lazy-reduction carry classes u4 in {0,1,2} all required non-empty; the 4 Miller-loop x final-exponentiation combinations equal the reference pairing.",
          "Needs the hook module (cfg john_yu_sm9_core_verif). Enumerated alphabet only.",
          "DESIGN.md 5 (C17), 7"),
+ "C18": (True, "bounded-exhaustive exploration of the union of the quick alphabets in two build configurations (release; release + debug assertions + overflow checks): oracle-free transcript comparison case by case, plus the oracle-carrying checks re-run in the second configuration",
+         "Every case of the union of the quick alphabets (field pairs, conversions, every short byte string, set_bit indices, decoder corpus, group pairs, scalar multiples, pairings, Gt operations) is executed by the same driver in both builds and the observation records (result bytes / Err variant / None / panic text) must be identical; additionally 14 (thorough: 17) oracle-carrying checks, including the BFS machines, run in the dbg build and must not panic or deviate from the model.",
+         "dbg keeps opt-level 3 and enables exactly debug-assertions and overflow-checks; identical panics in both profiles (documented unwraps) are not counted. Enumerated alphabets only.",
+         "DESIGN.md 5 (C18)"),
  "C04": (True, GRID + "; all ordered pairs of concrete point values (discrete log x Jacobian representative), all triples of a small set",
          "Every ordered pair over (D x {Aff, LibMul, LibSub, Scaled(2), Scaled(-1), Scaled(generic), ScaledX1, ScaledY1}) + 8 identity representatives for A+B, B+A, A-B, (A-B)+B, unary laws on every value, boundary field values pushed through the adder as Jacobian scalings, all triples of a small set; abstraction (x/z^2, y/z^3) compared with textbook affine chord-and-tangent on reference points; adder arm x relation histogram with every class required.",
          "Enumerated alphabet only. Trusted: rustc, num-bigint, reference model.",
